@@ -1,0 +1,16 @@
+//go:build verif
+// +build verif
+
+package jsonrpc
+
+// Machine-checked contracts for the JSON-RPC codec (comment-only file).
+
+// Decoding a response on the client: whatever shape the server's JSON has (the fields of resp are
+// arbitrary after Unmarshal), no type assertion and no index into the caller's declared result
+// types can fail; the JSON library and reflect2 are assumed not to panic on values they produced.
+//@ func (*ClientCodec).Decode
+//@   prop C11 C04
+//@   havoc
+//@   requires c != nil && context != nil
+//@   stable context.ReturnType
+//@   loop 1 invariant 0 <= rangeidx() && len(res) <= len(context.ReturnType)
